@@ -302,6 +302,22 @@ func cmdC01(args []string) {
 	if *nfloat > 0 {
 		fl := []float64{0, 1, -1, 1.5, -2, 0.1, 1e300, -1e300, 1e-300, math.MaxFloat64, math.SmallestNonzeroFloat64,
 			math.Inf(1), math.Inf(-1), 1 << 53, 1<<53 + 2, 3.141592653589793, math.Copysign(0, -1)}
+		// representation edges: every power of two up to 2^65 with both neighbours (2^31, 2^53, 2^63 and 2^64 are where integer
+		// conversions change behaviour), the powers of ten where decimal formatting changes style, and whole numbers of every magnitude
+		for k := 0; k <= 65; k++ {
+			p2 := math.Ldexp(1, k)
+			for _, v := range []float64{p2, math.Nextafter(p2, 0), math.Nextafter(p2, math.Inf(1)), p2 - 1, p2 + 1} {
+				fl = append(fl, v, -v)
+			}
+		}
+		for k := -25; k <= 25; k++ {
+			p10 := math.Pow(10, float64(k))
+			fl = append(fl, p10, -p10, 17*p10, math.Nextafter(p10, 0))
+		}
+		for i := 0; i < *nfloat; i++ {
+			whole := math.Trunc(math.Ldexp(rng.Float64(), rng.Intn(70)))
+			fl = append(fl, whole, -whole)
+		}
 		for i := 0; i < *nfloat; i++ {
 			f := math.Float64frombits(rng.Uint64())
 			if math.IsNaN(f) {
